@@ -138,6 +138,12 @@ class MayRaise:
                 self._done.add(key)
                 for k in set(self.summ) - before:
                     work.append(k)
+                redo = self.__dict__.setdefault("_redo", set())
+                for k in list(redo):
+                    self._done.discard(k)
+                    if k not in work:
+                        work.append(k)
+                redo.clear()
                 if new != self.summ[key]:
                     self.summ[key] = new
                     for caller, callees in self.edges.items():
@@ -202,8 +208,55 @@ class MayRaise:
                 return t not in (UNK, prim("none")) and t[0] not in ("opt", "dictget", "typevar")
             self.flows[fi.qualname] = FactFlow(fi.node, ival=lambda e, facts, fi=fi: self.ival(e, facts, fi), nn_call=nn,
                                                ret_nonneg=lambda call, i, fi=fi: self.ret_component_nonneg(call, i, fi),
-                                               init_facts=self.param_facts(fi), pred_inline=lambda call, fi=fi: self.predicate_body(call, fi))
+                                               init_facts=self.param_facts(fi), pred_inline=lambda call, fi=fi: self.predicate_body(call, fi),
+                                               ret_facts=lambda call, names, fi=fi: self.return_facts(call, names, fi))
         return self.flows[fi.qualname]
+
+    def return_facts(self, call: ast.Call, names: List[str], fi: FuncInfo) -> Set[Fact]:
+        """Facts that hold at every `return (a, b, ...)` of the same-module helper being called and mention only returned
+        names (relations between components included: `kind == ":" or PATTERN.match(attribute)`), renamed to `names`."""
+        from .facts import fact_names, rename_fact
+        if not isinstance(call.func, ast.Name):
+            return set()
+        q = self.m.resolve_name(fi.module, call.func.id)
+        hf = self.m.functions.get(q) if q else None
+        if hf is None or hf is fi or hf.cls is not None or isinstance(hf.node, ast.Lambda) or hf.module != fi.module:
+            return set()
+        stack = self.__dict__.setdefault("_rf_stack", set())
+        if hf.qualname in stack:
+            return set()
+        stack.add(hf.qualname)
+        try:
+            fl = self.flow_for(hf)
+        finally:
+            stack.discard(hf.qualname)
+        memo = self.__dict__.setdefault("_rf_memo", {})
+        mk = (hf.qualname, tuple(names), id(fl))
+        if mk in memo:
+            return memo[mk]
+        shape = self.__dict__.setdefault("_rf_shape", {})
+        if hf.qualname not in shape:
+            shape[hf.qualname] = ([r for r in walk_no_nested(hf.node) if isinstance(r, ast.Return)],
+                                  set(hf.params()) | {x.id for x in walk_no_nested(hf.node) if isinstance(x, ast.Name) and isinstance(x.ctx, ast.Store)})
+        rets, locals_ = shape[hf.qualname]
+        common: Optional[Set[Fact]] = None
+        for r in rets:
+            v = r.value
+            if not (isinstance(v, ast.Tuple) and len(v.elts) == len(names)):
+                return set()
+            comp = {e_.id: n_ for e_, n_ in zip(v.elts, names) if isinstance(e_, ast.Name)}
+            if len(set(comp)) != len([e_ for e_ in v.elts if isinstance(e_, ast.Name)]):
+                return set()
+            got: Set[Fact] = set()
+            for f in fl.facts_at.get(id(r), frozenset()):
+                ns = fact_names(f)
+                free = {n_ for n_ in ns if n_ not in comp}
+                # what is left must be module-level names (patterns, constants), not locals or parameters of the helper
+                if ns & set(comp) and not (free & locals_):
+                    got.add(rename_fact(f, comp))
+            common = got if common is None else (common & got)
+        memo[mk] = common or set()
+        return memo[mk]
 
     def predicate_body(self, call: ast.Call, fi: FuncInfo, depth: int = 0) -> Optional[ast.expr]:
         """`helper(a, b)` where helper is a module-level function whose body is one `return <expr>`: that expression with the
@@ -602,8 +655,34 @@ class MayRaise:
 
     # ------------------------------------------------------------------ expressions
     def facts(self, node: ast.AST, ctx) -> FrozenSet[Fact]:
+        if isinstance(ctx["fi"].node, ast.Lambda):
+            # a lambda has one expression: what is known about its parameters at every place it is called holds throughout
+            return self.__dict__.get("_lambda_entry", {}).get(ctx["fi"].qualname, frozenset())
         fl = self.flow_for(ctx["fi"])
         return fl.facts_at.get(id(node), frozenset())
+
+    def note_lambda_call(self, callee: FuncInfo, e: ast.Call, ctx) -> None:
+        """facts about the plain-name arguments at this call site, renamed to the lambda's parameters, met with what earlier call
+        sites established"""
+        lam = callee.node
+        ps = [a.arg for a in lam.args.posonlyargs + lam.args.args]
+        site_facts = self.facts(e, ctx)
+        entry: Set[Fact] = set()
+        for p_, a in zip(ps, e.args):
+            if isinstance(a, ast.Name):
+                for f in site_facts:
+                    if f[0] in ("T", "NN", "GE0") and f[1] == a.id and len(f) == 2:
+                        entry.add((f[0], p_))
+                    elif f[0] in ("LEN>=", "LEN==") and f[1] == a.id and len(f) == 3 and _is_int(f[2]):
+                        entry.add((f[0], p_, f[2]))
+        store = self.__dict__.setdefault("_lambda_entry", {})
+        old = store.get(callee.qualname)
+        new = frozenset(entry) if old is None else (old & frozenset(entry))
+        if new != old:
+            store[callee.qualname] = new
+            for k in list(self.summ):
+                if k[0] == callee.qualname and k in self._done:
+                    self.__dict__.setdefault("_redo", set()).add(k)
 
     def site(self, ctx, node: ast.AST, what: str, exc: str, ok: bool, why: str) -> Optional[Esc]:
         fi: FuncInfo = ctx["fi"]
@@ -1231,6 +1310,16 @@ class MayRaise:
                     out |= self.call_summary(callee, sfx or None, ctx, e, recv=None)
                 return out
         res = self.r.callees(e, fi, ctx["self_cls"])
+        if res[0] == "multi":
+            # a value picked from a dispatch table: any of its entries may be what is called
+            for sub in res[1]:
+                out |= self._resolved_call(sub, e, ctx)
+            return out
+        return out | self._resolved_call(res, e, ctx)
+
+    def _resolved_call(self, res, e: ast.Call, ctx) -> Set[Esc]:
+        fi: FuncInfo = ctx["fi"]
+        out: Set[Esc] = set()
         kind = res[0]
         if kind == "funcs":
             fis, recv = res[1], res[2]
@@ -1251,6 +1340,8 @@ class MayRaise:
                         mt = self.m.find_method(self_cls_callee, e.func.attr)
                         fis = [mt] if mt is not None else fis
             for callee in fis:
+                if isinstance(callee.node, ast.Lambda):
+                    self.note_lambda_call(callee, e, ctx)
                 sfx = self.arg_classes(callee, e, ctx) if not isinstance(callee.node, ast.Lambda) else ""
                 out |= self.call_summary(callee, ((self_cls_callee or "") + sfx) if sfx else self_cls_callee, ctx, e, recv=e.func.value if isinstance(e.func, ast.Attribute) else None)
             return out
